@@ -153,8 +153,14 @@ def add(c1, c2):
 
 
 def tiny_offset(rng):
-    """A displacement of 1e-3 .. 1e-5 bohr (a power of two per axis, some axes zero)."""
-    out = [[rng.choice([-1, 1]) * rng.choice([0, 1, 3]), -rng.randint(11, 16)] for _ in range(3)]
+    """A displacement of 1e-3 .. 1e-5 bohr per axis with a generic mantissa (some axes zero).  Generic, because with
+    displacements on a coarse binary grid the rounding errors of expanded squares coincide and cancel."""
+    out = []
+    for _ in range(3):
+        if rng.random() < 0.3:
+            out.append([0, 0])
+        else:
+            out.append([rng.choice([-1, 1]) * rng.randrange(513, 1024, 2), -rng.randint(20, 26)])
     if not any(o[0] for o in out):
-        out[rng.randrange(3)] = [1, -13]
+        out[rng.randrange(3)] = [777, -23]
     return out
